@@ -19,16 +19,6 @@ open Std.Do
 
 variable {α : Type} [Scalar α] [Wide α]
 
-/-- the part of an active edge the winding fold reads -/
-def sigOf (e : ActiveEdge α) : Bool × Int := (e.isMerge, e.winding)
-
-/-- the winding fold on signatures -/
-def sstep (rule : Slab.Rule) (w : WindingState) (x : Bool × Int) : WindingState :=
-  if x.1 then { w with spanIndex := w.spanIndex + 1 } else w.update rule x.2
-
-def sfold (rule : Slab.Rule) (w : WindingState) (l : List (Bool × Int)) : WindingState :=
-  l.foldl (sstep rule) w
-
 theorem wfold_eq_sfold (rule : Slab.Rule) (w : WindingState) (l : List (ActiveEdge α)) :
     wfold rule w l = sfold rule w (l.map sigOf) := by
   induction l generalizing w with
@@ -123,9 +113,6 @@ theorem sfold_shift {rule : Slab.Rule} {w w' : WindingState} (hn : w.number = w'
     omega
 
 
-/-- the signatures of the active list -/
-def sigs (s : St α) : List (Bool × Int) := s.active.toList.map sigOf
-
 theorem Wat_sfold (s : St α) (k : Nat) : Wat s k = sfold s.rule WindingState.new ((sigs s).take k) := by
   unfold Wat sigs
   rw [wfold_eq_sfold, List.map_take]
@@ -143,9 +130,6 @@ theorem Wat_split (s : St α) {k m : Nat} (h : k ≤ m) :
 
 theorem Wat_mono (s : St α) {k m : Nat} (h : k ≤ m) : (Wat s k).spanIndex ≤ (Wat s m).spanIndex := by
   rw [Wat_split s h]; exact sfold_mono _ _ _
-
-/-- the winding state to the right of the whole active list -/
-def Wtot (s : St α) : WindingState := Wat s s.active.size
 
 theorem Wat_ge_size (s : St α) {k : Nat} (h : s.active.size ≤ k) : Wat s k = Wtot s := by
   unfold Wtot
@@ -217,5 +201,27 @@ theorem incr_eq_cnt (s : St α) (a : Nat) : ∀ (d : Nat), a + d ≤ s.active.si
     simp only [this, true_and]
     rw [hstep]
     split <;> (push_cast; omega)
+
+/-- the consequences of `HorizAgree` the coherence proofs use, as a property of the scan result -/
+def ScanAgree (s : St α) (scan : Scan) : Prop :=
+  (scan.mergeEvent = true → scan.aboveStart < scan.aboveEnd) ∧
+  (scan.aboveStart = scan.aboveEnd → (Wat s scan.aboveStart).isIn = true → scan.splitEvent = true)
+
+theorem scanAgree_of_horiz {s : St α} {scan : Scan} (hok : ScanOk s scan) (hsem : ScanSem s scan)
+    (hH : HorizAgree s.tolerance) : ScanAgree s scan :=
+  ⟨hok.merge_room hH, hsem.split_of_in hH⟩
+
+theorem scanAgree_of_B {s : St α} {scan : Scan} (h : scanAgreeB s scan = true) : ScanAgree s scan := by
+  unfold scanAgreeB at h
+  simp only [Bool.and_eq_true, Bool.or_eq_true, Bool.not_eq_true', decide_eq_true_eq, Bool.and_eq_false_iff,
+    decide_eq_false_iff_not] at h
+  refine ⟨fun hm => ?_, fun hab hin => ?_⟩
+  · rcases h.1 with h1 | h1
+    · rw [hm] at h1; cases h1
+    · exact h1
+  · rcases h.2 with (h2 | h2) | h2
+    · exact absurd hab h2
+    · rw [hin] at h2; cases h2
+    · exact h2
 
 end Lyon.SweepCoh
